@@ -120,6 +120,30 @@ def main():
                     res["watchdog"]["shape"] = "live-workers-starved"
             except Exception as e:
                 res["watchdog"]["inspect_error"] = repr(e)
+        if res["status"] != "deadlock" and all_dead and not loader_alive and main_in_get and cb_alive:
+            # fourth deadlock shape: no worker PROCESS is left (nobody else can write to the output queue or release a cross-process
+            # lock), the loader has finished, the caller waits for an output, and every other thread of this process stands still:
+            # two samples of all stacks taken 2 s apart are identical (a completion callback blocked for ever on the queue's write
+            # lock that a worker took with it when it was killed mid-write, feeder threads waiting for work).  No transition is enabled.
+            try:
+                me = threading.get_ident()
+                def snap():
+                    fr = sys._current_frames()
+                    out = {}
+                    for t in threading.enumerate():
+                        if t.ident == me: continue
+                        f, st = fr.get(t.ident), []
+                        while f and len(st) < 8: st.append((os.path.basename(f.f_code.co_filename), f.f_code.co_name, f.f_lineno)); f = f.f_back
+                        out[t.ident] = st
+                    return out
+                s1 = snap(); time.sleep(2.0); s2 = snap()
+                res["watchdog"]["all_threads_stand_still"] = (s1 == s2)
+                res["watchdog"]["worker_exitcodes"] = [w.exitcode for w in RecPL._all]
+                if s1 == s2 and all(not w.is_alive() for w in RecPL._all):
+                    res["status"] = "deadlock"
+                    res["watchdog"]["shape"] = "all-workers-dead-callback-blocked" + ("+worker-killed-by-signal" if any((w.exitcode or 0) < 0 for w in RecPL._all) else "")
+            except Exception as e:
+                res["watchdog"]["inspect_error"] = repr(e)
         if res["status"] != "deadlock" and all_dead and loader_alive and not main_in_get:
             # third deadlock shape: no worker is left to consume, the loader thread is blocked putting into the full input
             # queue and the caller is blocked waiting for the loader thread (join) -- nobody can ever drain the queue
@@ -145,6 +169,7 @@ def main():
                               spec["perturb_seed"], spec["worker_jitter_ms"], spec.get("exc_type", "ValueError"))
         filt.none_uid = (spec.get("none_items") or [None])[0]
         filt.none_out = set(spec.get("none_outputs") or [])
+        filt.big_kb = int(spec.get("big_out_kb") or 0)
         none_at = set(spec.get("none_items") or [])       # None is a legal ITEM (only queue payloads use None as the pill)
         def source():
             for uid in range(spec["n_items"]):
@@ -174,7 +199,8 @@ def main():
                 pass
             else:
                 for o in it:
-                    res["got"].append(["None", -1, 0] if o is None else list(o))
+                    res["got"].append(["None", -1, 0] if o is None else list(o)[:3])
+                    if spec.get("consumer_pause_s") and len(res["got"]) == 1: time.sleep(spec["consumer_pause_s"])   # a caller busy with the first output
                     if spec["consumer_jitter_ms"] and rngc.random() < .5: time.sleep(rngc.random() * spec["consumer_jitter_ms"] / 1000.0)
                     if abandon is not None and len(res["got"]) >= abandon: break
             if abandon is not None:
